@@ -10,4 +10,5 @@ CONSTANTS
   JumpMags = {65536}
   QStale = FALSE
   QExact0 = FALSE
+  QBackstep = FALSE
 INVARIANTS Bounds Residual WalkerMeaning PathIndependent SmallIsStep
